@@ -228,6 +228,11 @@ func (f *OrefaFile) ReadAt(b []byte, off int64) (n int, err error) {
 		return 0, &fs.PathError{Op: "readat", Path: f.name, Err: avfs.ErrNegativeOffset}
 	}
 
+	if len(b) == 0 {
+		// As os.File, reading into an empty buffer does nothing.
+		return 0, nil
+	}
+
 	f.mu.RLock()
 	defer f.mu.RUnlock()
 
@@ -674,6 +679,11 @@ func (f *OrefaFile) WriteAt(b []byte, off int64) (n int, err error) {
 
 	if off < 0 {
 		return 0, &fs.PathError{Op: "writeat", Path: f.name, Err: avfs.ErrNegativeOffset}
+	}
+
+	if len(b) == 0 {
+		// As os.File, writing nothing does nothing.
+		return 0, nil
 	}
 
 	f.mu.RLock()
